@@ -523,7 +523,7 @@ verdict_t check_lsearch(const lcase_t& c, ctx_t& ctx)
     }
 
     // ---- success: step, state, conditions -----------------------------------------------------------------------
-    if (c.lsearchk == "morethuente" && (!std::isfinite(state.fx()) || !state.gx().all_finite() || !state.x().all_finite()))
+    if (c.lsearchk == "morethuente" && trials == c.max_iterations && (!std::isfinite(state.fx()) || !state.gx().all_finite() || !state.x().all_finite()))
     {
         // open finding: when every one of the max_iterations attempts to shorten a too long initial step produces a non-finite
         // value, lsearchk_t::get hands More-Thuente a step that is one factor 0.3 shorter than the point the state was evaluated
